@@ -307,7 +307,8 @@ def run(ctx):
     body = [st for st in init.node.body]
     vassign = [st for st in walk_no_nested(init.node) if isinstance(st, ast.Assign) and any(is_self_attr(t, "_value") for t in st.targets)]
     vaug = [st for st in walk_no_nested(init.node) if isinstance(st, ast.AugAssign) and is_self_attr(st.target, "_value")]
-    okv = len(vassign) == 1 and axname is not None and src(vassign[0].value) in (f"0.5 * self._position.s_vdot({axname}).real", f"0.5 * {axname}.s_vdot(self._position).real")
+    from ..terms import canon
+    okv = len(vassign) == 1 and axname is not None and canon(vassign[0].value) in (canon(f"0.5 * self._position.s_vdot({axname}).real"), canon(f"0.5 * {axname}.s_vdot(self._position).real"))
     ctx.check("R14.3", f"{init.key}::value starts as 0.5*Re<x, Ax>", okv, src(vassign[0].value) if vassign else None, init)
     okb = len(vaug) == 1 and isinstance(vaug[0].op, ast.Sub) and src(vaug[0].value) in (f"{b}.s_vdot(self._position).real", f"self._position.s_vdot({b}).real")
     ctx.check("R14.3", f"{init.key}::value subtracts Re<b, x> when b is given", okb, src(vaug[0]) if vaug else None, init)
